@@ -2,6 +2,8 @@
 
 package sctp
 
+import "time"
+
 // C08 — graceful shutdown delivers everything first and completes on both sides.
 
 func vHasShutdownChunk(p *packet) bool {
@@ -18,7 +20,7 @@ func vHasShutdownChunk(p *packet) bool {
 // ever emitted by an endpoint with no pending or in-flight data of its own.
 func vWire(x, y *Association) int {
 	n := 0
-	for _, raw := range vWriterPass(x) {
+	for _, raw := range vWriterWake(x) {
 		p := vDecode(raw)
 		if p != nil && vHasShutdownChunk(p) {
 			vassert(!x.hasPendingOrInflightData(), "SHUTDOWN / SHUTDOWN-ACK is never emitted while own data is pending or in flight")
@@ -116,7 +118,7 @@ func vh_C08_L1_state_table() {
 	case 1:
 		if st == shutdownSent || st == shutdownAckSent {
 			vassert(a.willSendShutdownComplete && a.shutdownCompletePending, "SHUTDOWN-ACK is answered with SHUTDOWN-COMPLETE")
-			pkts := vWriterPass(a)
+			pkts := vWriterWake(a)
 			vassert(len(pkts) == 1, "SHUTDOWN-COMPLETE goes out alone")
 			if len(pkts) == 1 {
 				p := vDecode(pkts[0])
@@ -150,7 +152,7 @@ func vh_C08_L1_t2_retransmits() {
 	}
 	n := uint(1 + vPick(3))
 	a.onRetransmissionTimeout(timerT2Shutdown, n)
-	pkts := vWriterPass(a)
+	pkts := vWriterWake(a) // the timer callback must wake the writer
 	vassert(len(pkts) == 1, "T2 expiry emits one packet")
 	if len(pkts) != 1 {
 		return
@@ -212,7 +214,7 @@ func vh_C08_L3_one_loss() {
 	idx := 0
 	wire := func(x, y *Association) int {
 		n := 0
-		for _, raw := range vWriterPass(x) {
+		for _, raw := range vWriterWake(x) {
 			p := vDecode(raw)
 			if p != nil && vHasShutdownChunk(p) {
 				vassert(!x.hasPendingOrInflightData(), "SHUTDOWN / SHUTDOWN-ACK is never emitted while own data is pending or in flight")
@@ -255,5 +257,101 @@ func vh_C08_L3_one_loss() {
 		}
 	}
 	vobserve("drop", uint64(dropAt))
+	vcover("end")
+}
+
+// C08.L1d: data still in flight (sent, not yet acknowledged) at the time of the call.
+// Shutdown must wait for it: the SHUTDOWN chunk is not emitted and SHUTDOWN-SENT is not
+// entered before the data is acknowledged, also when its only transmission was lost.
+func vh_C08_L1_inflight_at_shutdown() {
+	a, b := vPair(vAssocOpts{pickTSN: true})
+	s, err := a.OpenStream(1, PayloadTypeWebRTCBinary)
+	vassert(err == nil, "open stream")
+	d := nondetBytes(1)
+	_, werr := s.WriteSCTP(d, PayloadTypeWebRTCBinary)
+	vassert(werr == nil, "write accepted")
+	lost := vPick(2) == 1
+	for _, raw := range vWriterWake(a) { // the data goes on the wire before Shutdown is called
+		vassert(vDecode(raw) != nil, "decodes")
+		if !lost {
+			vInbound(b, raw)
+		}
+	}
+	vassert(a.inflightQueue.size() == 1 && a.pendingQueue.size() == 0, "the message is in flight, nothing pending")
+	_ = a.Shutdown(vNewClosedCtx())
+	vassert(a.getState() == shutdownPending && !a.willSendShutdown, "Shutdown waits for data in flight")
+	net := &vNet{a: a, b: b, dropAt: -1, dupAt: -1}
+	for round := 0; round < 12; round++ {
+		c := 0
+		for _, raw := range vWriterWake(a) {
+			p := vDecode(raw)
+			if p != nil && vHasShutdownChunk(p) {
+				vassert(!a.hasPendingOrInflightData(), "SHUTDOWN is never emitted while own data is in flight")
+			}
+			vInbound(b, raw)
+			c++
+		}
+		vFireAck(b)
+		c += net.wire(b, a)
+		vFireAck(a)
+		if c == 0 {
+			if vIsShut(a) && vIsShut(b) {
+				break
+			}
+			vFireAll(a)
+			vFireAll(b)
+		}
+	}
+	vassert(vIsShut(a) && vIsShut(b), "both sides end closed")
+	bs := b.streams[1]
+	vassert(bs != nil, "peer has the stream")
+	if bs != nil {
+		buf := make([]byte, 4)
+		n, _, rerr := bs.reassemblyQueue.read(buf)
+		vassert(rerr == nil && n == 1 && buf[0] == d[0], "the message in flight at the time of the call is delivered before the association closes")
+	}
+	vcover("end")
+}
+
+// a context whose Done() is evaluated by a parked blocking writer: at that moment the
+// association is shut down underneath it (the interleaving "shutdown begins while a
+// writer is blocked"), and the channel returned never fires.
+type vShutdownWhileParkedCtx struct {
+	a    *Association
+	peer bool
+	done bool
+}
+
+func (c *vShutdownWhileParkedCtx) Deadline() (time.Time, bool) { return time.Time{}, false }
+func (c *vShutdownWhileParkedCtx) Err() error                  { return nil }
+func (c *vShutdownWhileParkedCtx) Value(any) any               { return nil }
+func (c *vShutdownWhileParkedCtx) Done() <-chan struct{} {
+	if !c.done {
+		c.done = true
+		if c.peer {
+			_ = vDeliver(c.a, &chunkShutdown{cumulativeTSNAck: c.a.cumulativeTSNAckPoint})
+		} else {
+			_ = c.a.Shutdown(vNewClosedCtx())
+		}
+	}
+	return nil
+}
+
+// C08.L2b: a blocking write that is parked when shutdown begins (locally or by the
+// peer's SHUTDOWN) is woken and rejected; it queues nothing.
+func vh_C08_L2_parked_writer_rejected() {
+	a, _ := vNewAssocOpts(vAssocOpts{blockWrite: true})
+	s, err := a.OpenStream(1, PayloadTypeWebRTCBinary)
+	vassert(err == nil, "open stream")
+	_, werr := s.WriteSCTP(nondetBytes(2), PayloadTypeWebRTCBinary)
+	vassert(werr == nil && a.writePending, "first write accepted, the gate is closed")
+	pend := a.pendingQueue.size()
+	chunks, _ := s.packetize(nondetBytes(3), PayloadTypeWebRTCBinary)
+	ctx := &vShutdownWhileParkedCtx{a: a, peer: vPick(2) == 1}
+	serr := a.sendPayloadData(ctx, chunks)
+	vassert(ctx.done, "the writer was parked when shutdown began")
+	vassert(a.getState() != established, "shutdown has begun")
+	vassert(serr != nil, "a write that was blocked when shutdown began is rejected")
+	vassert(a.pendingQueue.size() == pend, "and queues nothing")
 	vcover("end")
 }
